@@ -88,7 +88,7 @@ def gen_cases(rng, tier):
     return cases
 
 
-def _pipeline(m, rot, li, fw, sites8, labels, cubic, dict_radius=False, site_scale=1.0):
+def _pipeline(m, rot, li, fw, sites8, labels, cubic, dict_radius=False, site_scale=1.0, interleave=False):
     """run the real API; returns a dict of canonical results"""
     from gemdat.jumps import Jumps
     from gemdat.rdf import radial_distribution_between_species
@@ -97,6 +97,18 @@ def _pipeline(m, rot, li, fw, sites8, labels, cubic, dict_radius=False, site_sca
     fw = np.array(fw, dtype=float) / DEN
     coords = np.concatenate([li, fw], axis=1)
     species = ['Li'] * li.shape[1] + ['S'] * fw.shape[1]
+    if interleave:
+        # atoms of the two species take turns in the atom list (S, Li, S, Li, ...): the relative order within each species is kept,
+        # so every result indexed by diffusing atom or by species is unchanged
+        a_li, a_fw = list(range(li.shape[1])), list(range(li.shape[1], coords.shape[1]))
+        order = []
+        while a_li or a_fw:
+            if a_fw:
+                order.append(a_fw.pop(0))
+            if a_li:
+                order.append(a_li.pop(0))
+        coords = coords[:, order, :]
+        species = [species[k] for k in order]
     traj = synth.make_traj(m, species, coords, rot=rot)
     lat = traj.get_lattice()
     # site structure in a slightly different cell than the simulation (same for the original and every transformed copy)
@@ -173,6 +185,7 @@ def _run(case):
     s8_p = [s8[ps[k]] for k in range(len(ps))]                          # new site k is old site ps[k]
     lab_p = [lab[ps[k]] for k in range(len(ps))]
     res['perm_sites'] = _pipeline(m, None, li, fw, s8_p, lab_p, vm, case.get('dict_radius', False), case.get('site_scale', 1.0))
+    res['interleaved'] = _pipeline(m, None, li, fw, s8, lab, vm, case.get('dict_radius', False), case.get('site_scale', 1.0), interleave=True)
     return res
 
 
@@ -264,7 +277,7 @@ def oracle(case, out):
         if not ok:
             fs.append((f'invariance/{kind}:{key}', f'{key} changes under {kind}: {str(got)[:120]} vs expected {str(want)[:120]} (lattice {case["m"]})'))
 
-    for kind in ('rot', 'trans', 'perm_atoms', 'perm_sites'):
+    for kind in ('rot', 'trans', 'perm_atoms', 'perm_sites', 'interleaved'):
         o = out[kind]
         st = np.array(b['states'])
         ev, jm = b['events'], b.get('jumps', [])
